@@ -316,7 +316,7 @@ class HistoryGen:
                 out.append(self._cmd({"op": "bcopy"}))
         abort = rng.random() < self.p_abort if force is None else force
         if abort:
-            out.append(self._cmd({"op": "babort", "exc": rng.choice(["E", "B"])}))
+            out.append(self._cmd({"op": "babort", "exc": rng.choice(["E", "B", "G"])}))
         else:
             out.append(self._cmd({"op": "bcommit"}))
             self.present = self.batch_present
